@@ -78,15 +78,24 @@ def run(unit, functions, repo, scratch, timeout=1800, deep=False):
     if os.path.exists(lock):
         shutil.copy(lock, os.path.join(runner, "Cargo.lock"))
     env = dict(os.environ, CARGO_NET_OFFLINE="true", CARGO_TARGET_DIR=os.path.join(root, "target"), RUSTFLAGS="-Awarnings")
+    # `//! also-with-features: checks` in the harness header: the whole harness runs a second time against the copy built
+    # with these features of the crate (C08 quantifies over the build with the internal assertions compiled in)
+    variants = [None]
+    for line in open(src):
+        if line.startswith("//! also-with-features:"):
+            variants.append(line.split(":", 1)[1].strip())
     cmd = ["cargo", "build", "--offline", "--quiet"] + (["--release"] if deep else [])
     fails = []
     done = True
     note_parts = []
     try:
-        p = subprocess.run(cmd, cwd=runner, env=env, stdout=subprocess.PIPE, stderr=subprocess.PIPE, text=True, timeout=timeout)
+      for feat in variants:
+        vcmd = cmd + (["--features", ",".join("slotted-egraphs/" + x for x in feat.split(","))] if feat else [])
+        p = subprocess.run(vcmd, cwd=runner, env=env, stdout=subprocess.PIPE, stderr=subprocess.PIPE, text=True, timeout=timeout)
         if p.returncode != 0:
-            return dict(ran=False, failures=[], note="bounded harness does not build against this tree: " + p.stderr[-1500:], cmd=" ".join(cmd), wall_s=round(time.time() - t0, 1))
+            return dict(ran=False, failures=[], note="bounded harness does not build against this tree: " + p.stderr[-1500:], cmd=" ".join(vcmd), wall_s=round(time.time() - t0, 1))
         exe = os.path.join(root, "target", "release" if deep else "debug", "verif-bounded-runner")
+        vnote = " [build with features %s]" % feat if feat else ""
         # one process per function, so that a panic inside one function's checks is attributed to it
         for fn in (list(functions) or [None]):
             renv = dict(os.environ)
@@ -97,16 +106,16 @@ def run(unit, functions, repo, scratch, timeout=1800, deep=False):
             for line in q.stdout.split("\n"):
                 if line.startswith("FAIL "):
                     _, f2, clause, rest = line.split(" ", 3)
-                    fails.append(dict(function=f2, clause=clause, input=rest))
+                    fails.append(dict(function=f2, clause=clause, input=rest + vnote))
                 if line.startswith("BOUNDED-DONE"):
                     fdone = True
             if not fdone:
                 pl = [l for l in q.stdout.split("\n") if l.startswith("PANICKED ")]
                 if pl and fn:
-                    fails.append(dict(function=fn, clause="C08:%s.no-panic" % fn.split("::")[-1], input=pl[-1][len("PANICKED "):][:600]))
+                    fails.append(dict(function=fn, clause="C08:%s.no-panic" % fn.split("::")[-1], input=pl[-1][len("PANICKED "):][:600] + vnote))
                 else:
                     done = False
-                    note_parts.append("harness aborted for %s (rc=%s): %s" % (fn, q.returncode, (q.stdout + q.stderr)[-800:]))
+                    note_parts.append("harness aborted for %s (rc=%s)%s: %s" % (fn, q.returncode, vnote, (q.stdout + q.stderr)[-800:]))
     except subprocess.TimeoutExpired:
         return dict(ran=False, failures=[], note="bounded harness timed out", cmd=" ".join(cmd), wall_s=time.time() - t0)
     finally:
